@@ -75,14 +75,43 @@ def k1_classical_then_register(spec):
 
 def k6_bits_after_bits(spec):
     """ Known finding to-tk-bits-prep-position: a bit preparation while a bit
-    wire exists to its right, or after a post-selection. """
+    wire exists to its right, or while the exporter's list of live classical
+    registers is not increasing along the wires (bits measured out of wire
+    order): `prepare_bits` then renames registers of wires to the left of the
+    new bit. The list is simulated as the exporter keeps it. """
     scans = specs.scans(spec)
-    bra = False
+    bits, n_bits = [], 0
     for (b, off), scan in zip(spec["layers"], scans):
-        if b.get("g") == "Bits" and not b.get("dag"):
-            if bra or any(w[0] == "bit" for w in scan[off:]):
+        g = b.get("g")
+        left = sum(1 for w in scan[:off] if w[0] == "bit")
+        if g == "Bits" and not b.get("dag"):
+            k = len(b["a"])
+            if any(w[0] == "bit" for w in scan[off:]):
                 return True
-        bra = bra or b.get("g") == "Bra"
+            start = n_bits if not bits else 0 if not left\
+                else bits[left - 1] + 1
+            if any(x >= start for x in bits[:left])\
+                    or any(x < start for x in bits[left:]):
+                return True
+            bits = bits[:left] + list(range(start, start + k))\
+                + [x + k for x in bits[left:]]
+            n_bits += k
+        elif g == "Bra":
+            n_bits += len(b["a"])
+        elif g == "Measure" and not b["a"][2]:
+            k, destructive = b["a"][0], b["a"][1]
+            for j in range(k):
+                bits = bits[:left + j] + [n_bits] + bits[left + j:]
+                n_bits += 1
+        elif g == "Bits" or g == "Discard" and "bit" in b["a"]:
+            n = len(specs.bdom(b))
+            bits = bits[:left] + bits[left + n:]
+        elif g in CLASSICAL:
+            n_in, n_out = len(specs.bdom(b)), len(specs.bcod(b))
+            bits = bits[:left] + [None] * n_out + bits[left + n_in:]
+            bits = [x for x in bits]
+        if any(x is None for x in bits):
+            return False   # classical post-processing: the other finding
     return False
 
 
